@@ -43,6 +43,30 @@
 #define VRT_ASAN 0
 #endif
 
+#if VRT_TSAN
+#include <sys/mman.h>
+#include <cerrno>
+namespace vrt {
+// ThreadSanitizer (gcc 12 runtime) intercepts mmap/munmap (and forgets the access history of the range) but not mremap.
+// A mapping moved by the kernel leaves stale history on the old range and inherits stale history on the new one, so
+// header writes of the region that lands there are reported as races with the previous tenant (seen in Backend::remap).
+// In the tsan variant the harness therefore defines mremap itself and emulates a moving remap of an anonymous private
+// mapping with calls ThreadSanitizer does understand: map new, copy, unmap old. Semantically a legal mremap result.
+inline void* tsan_mremap(void* a, size_t ol, size_t nl, int fl) {
+    if (nl == ol) return a;
+    if (!(fl & MREMAP_MAYMOVE)) {
+        if (nl < ol) { munmap((char*)a + nl, ol - nl); return a; }
+        errno = ENOMEM; return MAP_FAILED;
+    }
+    void* n = mmap(nullptr, nl, PROT_READ | PROT_WRITE, MAP_PRIVATE | MAP_ANONYMOUS, -1, 0);
+    if (n == MAP_FAILED) return MAP_FAILED;
+    memcpy(n, a, ol < nl ? ol : nl);
+    munmap(a, ol);
+    return n;
+}
+}
+#endif
+
 namespace vrt {
 
 // ------------------------------------------------------------------------------------------------ PRNG
